@@ -459,17 +459,17 @@ Proof.
 Qed.
 
 (* ====================================================================== *)
-(* 9. stats interceptor: Unbind does not remove the recorder *)
+(* 9. stats interceptor. Before fix 0d520bf (si_step_prefix) Unbind did not remove the recorder *)
 Fixpoint si_churn (a : Z) (n : nat) : list si_op :=
   match n with O => [] | S k => SiBind a :: SiUnbind a :: si_churn (a + 1) k end.
 Lemma si_churn_grows n : forall a st, (forall k, In k (si_recorders st) -> k < a) ->
   si_bound st = [] ->
-  let st' := fold_left si_step (si_churn a n) st in
+  let st' := fold_left si_step_prefix (si_churn a n) st in
   zlen (si_recorders st') = zlen (si_recorders st) + Z.of_nat n /\ si_bound st' = [].
 Proof.
   induction n as [|n IH]; intros a st Hlt Hb; cbn [si_churn fold_left]; cbv zeta; [split; [lia|assumption]|].
-  cbn [si_step si_bound si_recorders].
-  match goal with |- context [fold_left si_step _ ?x] => set (st1 := x) end.
+  cbn [si_step_prefix si_bound si_recorders].
+  match goal with |- context [fold_left si_step_prefix _ ?x] => set (st1 := x) end.
   assert (Hm : memZ a (si_recorders st) = false).
   { apply memZ_false. intros H. specialize (Hlt a H). lia. }
   assert (Hb1 : si_bound st1 = []).
@@ -479,6 +479,29 @@ Proof.
     destruct Hk as [->|Hk]; [lia|]. specialize (Hlt k Hk). lia. }
   destruct (IH (a + 1) st1 Hr1 Hb1) as [I1 I2]. split; [|assumption].
   rewrite I1. subst st1. cbn [si_recorders]. unfold addset. rewrite Hm, zlen_cons. lia.
+Qed.
+
+(* the code as it is now (releaseRecorder): the recorders are exactly the bound streams *)
+Lemma si_run_eq ops : forall st, si_recorders st = si_bound st ->
+  si_recorders (fold_left si_step ops st) = si_bound (fold_left si_step ops st).
+Proof.
+  induction ops as [|o t IH]; intros st H; cbn [fold_left]; [assumption|].
+  apply IH. destruct o; cbn [si_step si_recorders si_bound]; rewrite H; reflexivity.
+Qed.
+Lemma si_run_NoDup ops : forall st, NoDup (si_recorders st) -> NoDup (si_recorders (fold_left si_step ops st)).
+Proof.
+  induction ops as [|o t IH]; intros st H; cbn [fold_left]; [assumption|].
+  apply IH. destruct o; cbn [si_step si_recorders]; [apply addset_NoDup, H|apply delset_NoDup, H].
+Qed.
+Lemma si_unbind_releases st s : ~ In s (si_recorders (si_step st (SiUnbind s))).
+Proof. cbn [si_step si_recorders]. intros H. apply delset_In in H. tauto. Qed.
+(* churn on the fixed code: n streams bound and unbound again leave nothing *)
+Lemma si_churn_releases n : forall a st, si_recorders st = [] -> si_bound st = [] ->
+  let st' := fold_left si_step (si_churn a n) st in si_recorders st' = [] /\ si_bound st' = [].
+Proof.
+  induction n as [|n IH]; intros a st Hr Hb; cbn [si_churn fold_left]; cbv zeta; [split; assumption|].
+  apply IH; cbn [si_step si_bound si_recorders]; [rewrite Hr|rewrite Hb];
+    unfold addset, delset; cbn; rewrite Z.eqb_refl; reflexivity.
 Qed.
 
 (* ====================================================================== *)
@@ -552,7 +575,7 @@ Lemma h_clean_fold l : forall st, h_inv st -> h_inv (fold_left h_clean_one l st)
 Proof. induction l as [|i t IH]; intros st H; cbn [fold_left]; [assumption|]. apply IH, h_clean_one_inv, H. Qed.
 Lemma h_report_inv st : h_inv st -> h_inv (h_report st).
 Proof.
-  intros H. unfold h_report. destruct (h_next st >? h_hi st) eqn:G; [assumption|].
+  intros H. unfold h_report. destruct (negb (h_acked st) || (h_next st >? h_hi st)) eqn:G; [assumption|].
   destruct H as [Hn [Hr Hc]].
   assert (S0 : h_scan (h_next st) st).
   { split; [assumption|split; [intros k Hk; apply Hr, Hk|split; [lia|assumption]]]. }
